@@ -8,10 +8,19 @@ open Sos Sos.Search
 def ikeys (ix : Index) : List (Nat × Nat) := ix.docs.map (·.1)
 def countF (ix : Index) (f : Nat) : Nat := (ix.docs.filter (·.1.1 = f)).length
 def countFav (ix : Index) : Nat := (ix.docs.filter (·.2.fav)).length
+/-- documents of kind `k` outside the archive folder -/
+def kindPred (a : Option Nat) (k : Nat) (x : (Nat × Nat) × Doc) : Bool := decide (x.2.kind = k ∧ a ≠ some x.1.1)
+def countKind (ix : Index) (k : Nat) : Nat := (ix.docs.filter (kindPred ix.archive k)).length
+
+theorem filter_singleton_length {α : Type} (p : α → Bool) (x : α) : (List.filter p [x]).length = if p x then 1 else 0 := by
+  by_cases h : p x = true <;> simp [List.filter, h]
+/-- documents that carry tag `t` -/
+def countTag (ix : Index) (t : Nat) : Nat := (ix.docs.filter (fun x => decide (t ∈ x.2.tags))).length
 
 /-- index-internal consistency: one document per key, counters equal a recount -/
 def IxInv (ix : Index) : Prop :=
-  (ikeys ix).Nodup ∧ (∀ f, ix.vaults f = countF ix f) ∧ ix.favorites = countFav ix
+  (ikeys ix).Nodup ∧ (∀ f, ix.vaults f = countF ix f) ∧ ix.favorites = countFav ix ∧
+  (∀ k, ix.kinds k = countKind ix k) ∧ (∀ t, ix.tags t = countTag ix t)
 
 theorem findIn_none_iff (docs : List ((Nat × Nat) × Doc)) (k : Nat × Nat) :
     findIn docs k = none ↔ k ∉ docs.map (·.1) := by
@@ -45,7 +54,11 @@ theorem find_some_mem {ix : Index} {f s : Nat} {d : Doc} (h : ix.find f s = some
     ((f, s), d) ∈ ix.docs := findIn_some_mem ix.docs (f, s) d h
 
 theorem empty_inv : IxInv Index.empty := by
-  simp [IxInv, Index.empty, ikeys, countF, countFav]
+  simp [IxInv, Index.empty, ikeys, countF, countFav, countKind, countTag]
+
+/-- the same for an index that knows its archive folder -/
+theorem empty_inv_archive (a : Option Nat) : IxInv { Index.empty with archive := a } := by
+  simp [IxInv, Index.empty, ikeys, countF, countFav, countKind, countTag]
 
 /-- removing the unique entry with a given key shortens a filtered count by one exactly
 when that entry satisfies the filter -/
@@ -92,9 +105,9 @@ theorem add_inv (ix : Index) (f s : Nat) (d : Doc) (h : IxInv ix) : IxInv (ix.ad
   | some _ => simpa using h
   | none =>
     simp only [Option.isSome_none, Bool.false_eq_true, if_false]
-    obtain ⟨h1, h2, h3⟩ := h
+    obtain ⟨h1, h2, h3, h4, h5⟩ := h
     have hk := find_none_iff.mp hf
-    refine ⟨?_, ?_, ?_⟩
+    refine ⟨?_, ?_, ?_, ?_, ?_⟩
     · simp only [ikeys, List.map_append, List.map_cons, List.map_nil]
       rw [List.nodup_append]
       refine ⟨h1, by simp, ?_⟩
@@ -109,6 +122,24 @@ theorem add_inv (ix : Index) (f s : Nat) (d : Doc) (h : IxInv ix) : IxInv (ix.ad
         simp [hg, this, h2 g, countF]
     · simp only [countFav, List.filter_append, List.length_append]
       by_cases hv : d.fav = true <;> simp [hv, h3, countFav]
+    · intro k
+      have hk4 := h4 k
+      show (if k = d.kind ∧ ix.archive ≠ some f then ix.kinds k + 1 else ix.kinds k) =
+        ((ix.docs ++ [((f, s), d)]).filter (kindPred ix.archive k)).length
+      rw [List.filter_append, List.length_append, filter_singleton_length, hk4]
+      simp only [countKind]
+      by_cases c : k = d.kind ∧ ix.archive ≠ some f
+      · have hp : kindPred ix.archive k ((f, s), d) = true := by simp [kindPred, c.1.symm, c.2]
+        rw [if_pos c]; simp only [hp, if_true]
+      · have hp : kindPred ix.archive k ((f, s), d) = false := by
+          simp only [kindPred, decide_eq_false_iff_not]
+          exact fun h => c ⟨h.1.symm, h.2⟩
+        rw [if_neg c]; simp only [hp, Bool.false_eq_true, if_false, Nat.add_zero]
+    · intro t
+      simp only [countTag, List.filter_append, List.length_append]
+      have ht := h5 t
+      simp only [countTag] at ht
+      by_cases c : t ∈ d.tags <;> simp [c, ← ht]
 
 theorem remove_inv (ix : Index) (f s : Nat) (h : IxInv ix) : IxInv (ix.remove f s) := by
   unfold Index.remove
@@ -116,9 +147,9 @@ theorem remove_inv (ix : Index) (f s : Nat) (h : IxInv ix) : IxInv (ix.remove f 
   | none => simpa using h
   | some d =>
     simp only
-    obtain ⟨h1, h2, h3⟩ := h
+    obtain ⟨h1, h2, h3, h4, h5⟩ := h
     have hm := find_some_mem hf
-    refine ⟨?_, ?_, ?_⟩
+    refine ⟨?_, ?_, ?_, ?_, ?_⟩
     · simp only [ikeys]
       exact (List.filter_sublist.map _).nodup h1
     · intro g
@@ -142,10 +173,33 @@ theorem remove_inv (ix : Index) (f s : Nat) (h : IxInv ix) : IxInv (ix.remove f 
         omega
       · simp only [hv, Bool.false_eq_true, if_false, Nat.add_zero] at key ⊢
         omega
+    · intro k
+      have key := filter_remove_key ix.docs (f, s) d (kindPred ix.archive k) h1 hm
+      have hk4 := h4 k
+      show (if k = d.kind ∧ ix.archive ≠ some f then ix.kinds k - 1 else ix.kinds k) =
+        ((ix.docs.filter (fun x => decide (x.1 ≠ (f, s)))).filter (kindPred ix.archive k)).length
+      simp only [countKind] at hk4
+      by_cases c : k = d.kind ∧ ix.archive ≠ some f
+      · have hp : kindPred ix.archive k ((f, s), d) = true := by simp [kindPred, c.1.symm, c.2]
+        rw [if_pos c]; simp only [hp, if_true] at key; omega
+      · have hp : kindPred ix.archive k ((f, s), d) = false := by
+          simp only [kindPred, decide_eq_false_iff_not]
+          exact fun h => c ⟨h.1.symm, h.2⟩
+        rw [if_neg c]; simp only [hp, Bool.false_eq_true, if_false, Nat.add_zero] at key; omega
+    · intro t
+      have key := filter_remove_key ix.docs (f, s) d (fun x => decide (t ∈ x.2.tags)) h1 hm
+      have ht := h5 t
+      simp only [countTag] at *
+      by_cases c : t ∈ d.tags
+      · simp only [c, decide_true, if_true] at key ⊢
+        omega
+      · simp only [c, decide_false, Bool.false_eq_true, if_false, Nat.add_zero] at key ⊢
+        omega
 
 /-- C20/1.  After ANY sequence of index calls (add / remove / update, in any order, for
-present or absent documents) there is exactly one document per key and the per-folder and
-favourites counters equal a recount. -/
+present or absent documents, in and out of the archive folder) there is exactly one document
+per key and the per-folder, favourites, per-kind (outside the archive) and per-tag counters
+equal a recount. -/
 inductive IxOp where
   | add (f s : Nat) (d : Doc)
   | remove (f s : Nat)
@@ -155,6 +209,20 @@ def IxOp.run (ix : Index) : IxOp → Index
   | .add f s d => ix.add f s d
   | .remove f s => ix.remove f s
   | .update f s d => ix.update f s d
+
+theorem counters_equal_recount_archive (a : Option Nat) (ops : List IxOp) :
+    IxInv (ops.foldl IxOp.run { Index.empty with archive := a }) := by
+  have : ∀ ix, IxInv ix → IxInv (ops.foldl IxOp.run ix) := by
+    induction ops with
+    | nil => intro ix h; exact h
+    | cons o t ih =>
+      intro ix h
+      apply ih
+      cases o with
+      | add f s d => exact add_inv ix f s d h
+      | remove f s => exact remove_inv ix f s h
+      | update f s d => exact add_inv _ f s d (remove_inv ix f s h)
+  exact this _ (empty_inv_archive a)
 
 theorem counters_equal_recount (ops : List IxOp) : IxInv (ops.foldl IxOp.run Index.empty) := by
   have : ∀ ix, IxInv ix → IxInv (ops.foldl IxOp.run ix) := by
@@ -181,5 +249,10 @@ theorem merge_update_absent_commits_doc :
 
 example : ((([IxOp.add 0 1 d1, .add 0 2 d2, .remove 0 9, .update 0 1 d2].foldl IxOp.run Index.empty).vaults 0) = 2) := by
   decide
+
+private def k1 : Doc := { content := 3, fav := false, kind := 4, tags := [1, 2] }
+/-- archive and unarchive (folder 9 is the archive): the kind counter goes down and up again, the tag counters stay -/
+example : let ix := [IxOp.add 0 1 k1, .remove 0 1, .add 9 1 k1, .remove 9 1, .add 0 5 k1].foldl IxOp.run { Index.empty with archive := some 9 }
+    (ix.kinds 4, ix.tags 1, ix.tags 2, ix.vaults 9) = (1, 1, 1, 0) := by decide
 
 end Sos.Props.C20
